@@ -86,7 +86,7 @@ type tcpWrite struct {
 	pause int // 0 none, 1 Gosched, 2..5 multiples of the flush interval
 }
 
-var pauseFactor = []float64{0, 0, 0.3, 1.2, 2.5, 5}
+var pauseFactor = []float64{0, 0, 0.3, 1.2, 2.5, 5, 0.06}
 
 func genTCPCase(r *rand.Rand, idx int, soft int) (*streamSpec, []tcpWrite, int) {
 	maxLen := []int{80, 160, 400, 1000, 3000}[r.Intn(5)]
@@ -115,6 +115,12 @@ func genTCPCase(r *rand.Rand, idx int, soft int) (*streamSpec, []tcpWrite, int) 
 		k = 1 + r.Intn(3)
 	default:
 		k = 3 + r.Intn(10)
+	}
+	// "aged" connections: one pause longer than the flush interval after the first write, then many small writes in quick
+	// succession (each read separately, together well below one interval): flushes may then only come from the read deadline
+	aged := r.Intn(5) == 0
+	if aged {
+		k = 8 + r.Intn(8)
 	}
 	cuts := cutBiasedPositions(r, a, k)
 	var ws []tcpWrite
@@ -148,6 +154,12 @@ func genTCPCase(r *rand.Rand, idx int, soft int) (*streamSpec, []tcpWrite, int) 
 			p = 0
 		}
 		ws = append(ws, tcpWrite{len(sp.data), p})
+	}
+	if aged && len(ws) >= 3 {
+		ws[0].pause = 4
+		for i := 1; i < len(ws); i++ {
+			ws[i].pause = 6
+		}
 	}
 	return sp, ws, 0
 }
@@ -272,6 +284,7 @@ func tcpCase(c *vkit.Ctx, w *worker, env *tcpEnv, i int, sp *streamSpec, writes 
 	local := conn.LocalAddr().String()
 	sink := rec.get(local)
 	defer rec.drop(local)
+	t0 := time.Now()
 	prev := 0
 	for _, wr := range writes {
 		if _, err := conn.Write(sp.data[prev:wr.end]); err != nil {
@@ -303,6 +316,19 @@ func tcpCase(c *vkit.Ctx, w *worker, env *tcpEnv, i int, sp *streamSpec, writes 
 	marks := append([]int(nil), sink.marks...)
 	sink.mu.Unlock()
 	readerFlushes := sinkFlushes - 1
+	// Flush timing: the reader is flushed when a read times out or right after the read during which the (cached) deadline was
+	// renewed; a renewal needs the deadline to be closer than one interval, a time-out needs it to pass, so there is at most
+	// about one of them per flush interval of connection age. More flushes than that mean flushes that are not driven by the
+	// read deadline at all (e.g. one after every read), which cut multi-line records without any pause. The age is measured on
+	// this side and only ever over-estimates the allowance on a slow machine.
+	age := time.Since(t0)
+	if allowed := int(age/interval) + 3; readerFlushes > allowed {
+		w.events["tcp_cases_flush_rate_exceeded"]++
+		rn := vkit.Hash(fmt.Sprint(cfg))
+		_ = rn
+		c.Violation("flushes-not-driven-by-the-read-deadline", fmt.Sprintf("listener over loopback (%s): %d reader flushes on a connection that lived %s with a flush interval of %s (at most %d can come from read time-outs and deadline renewals): records are cut where no pause was",
+			cfg, readerFlushes, age.Round(time.Millisecond), interval, allowed), map[string]any{"stream_hex": hex.EncodeToString(sp.data[:minInt(len(sp.data), 600)]), "writes": len(writes), "records_seen_at_each_flush": marks})
+	}
 
 	w.evals++
 	w.events["tcp_cases"]++
